@@ -625,7 +625,7 @@ func init() {
 		Finish: func(a *core.Agg) {
 			min := int64(1)
 			if a.Tier == "thorough" {
-				min = 20
+				min = 12 // 3000 cases against 320: the floors scale with a margin for the seed
 			}
 			a.Floor("keysets_without_known_bad_patterns", 100*min)
 			a.Floor("keysets_prefix_related_but_order_preserving", 20*min)
